@@ -4,7 +4,7 @@ against a shadow copy of what was committed."""
 import hashlib, json, os, re
 import common as c
 
-N = {"quick": 400, "thorough": 8000}
+N = {"quick": 400, "thorough": 40000}
 OPK = ("S", "D", "T", "C", "X", "R", "L", "Q", "P")
 
 
